@@ -136,6 +136,7 @@ inductive Ob
   | commitReq (k : Nat) (off : Int)
   | proc (blk : List Msg)
   | procRet (r : PRes)             -- how the processor call ended (script; recorded by both sides)
+  | act (a : Act)                  -- the processor makes this API call now (script; recorded by both sides)
   | procCancel                     -- the consumer cancelled the processor's Deferred
   | cancelReq (k : Nat)
   | startFired (r : DRes)
@@ -226,6 +227,14 @@ structure Gen where
   shutWait : Bool            -- `shutdown()` attached `_commit_and_stop` to this processor Deferred
   deriving DecidableEq, Repr, Inhabited
 
+/-- The `_process_messages` generator while it is EXECUTING the processor call (the processor may
+    re-enter the API now): the block just handed over ends at `last`, `rest` is still queued.  No
+    handler reads it (Python: generator locals); it is state so that invariants can speak about it. -/
+structure Frame where
+  rest : List Msg
+  last : Int
+  deriving DecidableEq, Repr, Inhabited
+
 structure Looper where
   start : Rat
   due : Option Rat           -- `none` while the LoopingCall is inside its call
@@ -248,6 +257,7 @@ structure St where
   msgBlock : Bool := false
   parked : Option Reply := none
   proc : Option Gen := none
+  frame : Option Frame := none
   retryDelay : Rat
   attempts : Nat := 1
   maxAttempts : Nat
@@ -346,7 +356,9 @@ def retryFetch (cfg : Cfg) (after : Option Rat) (s : St) : St :=
 
 /-- `_handle_offset_response` for both OffsetResponse (`isFetch = false`) and OffsetFetchResponse. -/
 def handleOffsetResponse (cfg : Cfg) (isFetch : Bool) (off : Int) (s : St) : St :=
-  let s := { s with requestD := .none, retryDelay := cfg.retryInit, attempts := 1 }
+  let s := { s with requestD := .none }
+  if s.startD == .none then s else   -- stopped: late result of a cancelled request
+  let s := { s with retryDelay := cfg.retryInit, attempts := 1 }
   let s :=
     if !isFetch then { s with fetchOffset := off }
     else if off == offsetNotCommitted then
@@ -357,7 +369,8 @@ def handleOffsetResponse (cfg : Cfg) (isFetch : Bool) (off : Int) (s : St) : St 
 /-- `_handle_offset_error` -/
 def handleOffsetError (cfg : Cfg) (f : Fail) (s : St) : St :=
   let s := { s with requestD := .none }
-  if s.stopping then s
+  if s.startD == .none then s   -- stopped: late result of a cancelled request
+  else if s.stopping then s
   else if s.maxAttempts != 0 && s.attempts ≥ s.maxAttempts then startErrback f s
   else retryFetch cfg none s
 
@@ -459,18 +472,17 @@ def runAct (a : Act) (s : St) : St :=
 def procLoop : Nat → List Msg → St → St × Bool
   | 0, _, s => (s, true)
   | fuel + 1, rest, s =>
-    if rest.isEmpty || s.shuttingDown then (s, true) else
+    if rest.isEmpty || s.shuttingDown || s.stopping then (s, true) else
     let bs := if cfg.autoN != 0 then cfg.autoN else rest.length
     let blk := rest.take bs
     let rest' := rest.drop bs
     match blk.getLast? with
     | none => (s, true)
     | some lastMsg =>
-      let s := emit (.proc blk) s
       let e := s.script.head?.getD { acts := [], res := .ok }
-      let s := { s with script := s.script.tail }
-      let s := e.acts.foldl (fun s a => runAct inner a s) s
-      let s := emit (.procRet e.res) s
+      let s := { emit (.proc blk) s with script := s.script.tail, frame := some { rest := rest', last := lastMsg.off } }
+      let s := e.acts.foldl (fun s a => runAct inner a (emit (.act a) s)) s
+      let s := { emit (.procRet e.res) s with frame := none }
       match e.res with
       | .ok =>
         -- _clear_processor_deferred; _update_processed_offset
@@ -562,6 +574,7 @@ def finishSimple (s : St) : St :=
 /-- `_handle_fetch_error` -/
 def handleFetchError (f : Fail) (s : St) : St :=
   let s := { s with requestD := .none }
+  if s.startD == .none then s else   -- stopped: late result of a cancelled request
   if f.isOutOfRange && cfg.reset.isNone then startErrback f s else
   let s := if f.isOutOfRange then { s with fetchOffset := cfg.reset.getD s.fetchOffset } else s
   if s.stopping then s
@@ -599,6 +612,7 @@ def fetchBody (viaBlock : Bool) (r : Reply) (s : St) : St :=
 
 /-- `_handle_fetch_response` -/
 def handleFetchResponse (k : Nat) (r : Reply) (s : St) : St :=
+  if s.startD == .none then { s with requestD := .none } else   -- stopped: late reply, deliver nothing
   let s := { s with retryDelay := cfg.retryInit, attempts := 1 }
   if s.msgBlock then { s with parked := some r, requestD := .parked k }
   else fetchBody cfg inner false r s
@@ -610,7 +624,9 @@ def finishFull (s : St) : St :=
     let s := { s with msgBlock := false }
     match s.parked with
     | some r =>
-      let s := { s with parked := none, retryDelay := cfg.retryInit, attempts := 1 }
+      let s := { s with parked := none }
+      if s.startD == .none then { s with requestD := .none } else
+      let s := { s with retryDelay := cfg.retryInit, attempts := 1 }
       fetchBody cfg inner true r s
     | none => s
   else s
@@ -638,59 +654,76 @@ def cancelWaiters : Nat → St → St
       let s := { s with commitDs := s.commitDs.dropLast }
       cancelWaiters fuel (fireWaiter cfg inner (.err (.ext .cancelled 0)) s w)
 
-/-- The body of `stop()` once `_start_d` is known to be set. -/
-def stopCore (s : St) : St :=
-  let s := { s with stopping := true }
-  -- outstanding request
-  let s := match s.requestD with
-    | .pending k kind _ =>
-      let s := emit (.cancelReq k) s
-      -- OffsetFetch is routed to the coordinator, like OffsetCommit
-      match (if kind == ReqKind.offsetFetch then s.envCommit else s.envReq) with
-      | some (ek, tag) =>
-        match kind with
-        | .fetch => handleFetchError cfg (.ext ek tag) s
-        | _ => handleOffsetError cfg (.ext ek tag) s
-      | none => { s with requestD := .pending k kind true }
-    | _ => s
-  -- block of messages (a parked reply is dropped; `_discard_response` forgets its request)
+/-- `stop()`: `if self._request_d: self._request_d.cancel()` -/
+def stopReq (s : St) : St :=
+  match s.requestD with
+  | .pending k kind _ =>
+    let s := { emit (.cancelReq k) s with requestD := .pending k kind true }
+    -- OffsetFetch is routed to the coordinator, like OffsetCommit
+    match (if kind == ReqKind.offsetFetch then s.envCommit else s.envReq) with
+    | some (ek, tag) =>
+      match kind with
+      | .fetch => handleFetchError cfg (.ext ek tag) s
+      | _ => handleOffsetError cfg (.ext ek tag) s
+    | none => s
+  | _ => s
+
+/-- `stop()`: the block of messages (a parked reply is dropped; `_discard_response` forgets its
+    request), then the processor's Deferred. -/
+def stopBlockProc (s : St) : St :=
   let s := if s.msgBlock then
       { s with msgBlock := false, requestD := (if s.parked.isSome then .none else s.requestD), parked := none }
     else s
-  -- processor
-  let s := match s.proc with
-    | some g => procResult cfg inner g (some (.ext .cancelled 0)) (emit .procCancel s)
-    | none => s
-  -- retry timer
-  let s := match s.retryCall with
-    | .pending _ => { emit (.cancelTimer .retry) s with retryCall := .dead }
-    | _ => s
-  -- commit waiters, commit request
-  let s := cancelWaiters cfg inner (s.commitDs.length + 4) s
-  let s := match s.commitReq with
-    | some r =>
-      let s := emit (.cancelReq r.k) s
-      match s.envCommit with
-      | some (ek, tag) => handleCommitError cfg inner (.ext ek tag) r.delay r.attempt { s with commitReq := none }
-      | none => { s with commitReq := some { r with cancelled := true } }
-    | none => s
-  -- commit retry timer
+  match s.proc with
+  | some g => procResult cfg inner g (some (.ext .cancelled 0)) (emit .procCancel s)
+  | none => s
+
+/-- `stop()`: the retry timer -/
+def stopRetry (s : St) : St :=
+  match s.retryCall with
+  | .pending _ => { emit (.cancelTimer .retry) s with retryCall := .dead }
+  | _ => s
+
+/-- `stop()`: `if self._commit_req: self._commit_req.cancel()` -/
+def stopCommitReq (s : St) : St :=
+  match s.commitReq with
+  | some r =>
+    let s := emit (.cancelReq r.k) s
+    match s.envCommit with
+    | some (ek, tag) => handleCommitError cfg inner (.ext ek tag) r.delay r.attempt { s with commitReq := none }
+    | none => { s with commitReq := some { r with cancelled := true } }
+  | none => s
+
+/-- `stop()`: the commit retry timer and the auto-commit looper -/
+def stopTimers (s : St) : St :=
   let s := match s.commitCall with
     | .pending _ _ _ => { emit (.cancelTimer .commit) s with commitCall := .dead }
     | _ => s
-  -- auto-commit looper
-  let s := match s.looper with
-    | some l =>
-      match l.due with
-      | some _ => { emit (.cancelTimer .loop) s with looper := none }
-      | none => { s with looper := none }
-    | none => s
+  match s.looper with
+  | some l =>
+    match l.due with
+    | some _ => { emit (.cancelTimer .loop) s with looper := none }
+    | none => { s with looper := none }
+  | none => s
+
+/-- `stop()`: clear and possibly call back the start Deferred -/
+def stopFinish (s : St) : St :=
   let s := { s with stopping := false }
-  let s := match s.startD with
-    | .pending => { emit (.startFired (.ok s.lastProcessed)) s with startD := .none }
-    | .called => { s with startD := .none }
-    | .none => crash "stop: _start_d is None" s
-  s
+  match s.startD with
+  | .pending => { emit (.startFired (.ok s.lastProcessed)) s with startD := .none }
+  | .called => { s with startD := .none }
+  | .none => crash "stop: _start_d is None" s
+
+/-- The body of `stop()` once `_start_d` is known to be set. -/
+def stopCore (s : St) : St :=
+  let s := { s with stopping := true }
+  let s := stopReq cfg s
+  let s := stopBlockProc cfg inner s
+  let s := stopRetry s
+  let s := cancelWaiters cfg inner (s.commitDs.length + 4) s
+  let s := stopCommitReq cfg inner s
+  let s := stopTimers s
+  stopFinish s
 
 /-- `stop()` -/
 def stop (s : St) : St :=
